@@ -191,19 +191,25 @@ pub fn run(ctx: &mut Ctx) {
         ctx.forall(&format!("sequences/{}", id.name()), cases, strat(id, max), dispatch);
     }
     for id in [CodecId::MIupac, CodecId::MDna] {
-        let th = ctx.thorough();
-        let cases = ctx.cases(6, 8);
+        let lens = gen::long_lens(ctx.thorough());
         let m = id.model();
         let allowed: Vec<u8> = m.syms.iter().filter(|s| s.1 != b'?' && s.1 != b'!').map(|s| s.0).collect();
-        let st = gen::owned_spec_long(id, th).prop_map(move |mut s| {
-            for c in s.codes.iter_mut() {
-                if !allowed.contains(c) {
-                    *c = allowed[0];
-                }
-            }
-            Case { codec: id, s }
-        });
-        ctx.forall(&format!("sequences_long/{}", id.name()), cases, st, dispatch);
+        ctx.forall_lens(
+            &format!("sequences_long/{}", id.name()),
+            &lens,
+            |n| {
+                let allowed = allowed.clone();
+                gen::owned_spec_n(id, n).prop_map(move |mut s| {
+                    for c in s.codes.iter_mut() {
+                        if !allowed.contains(c) {
+                            *c = allowed[0];
+                        }
+                    }
+                    Case { codec: id, s }
+                })
+            },
+            dispatch,
+        );
     }
     ctx.require_class("alt_pattern");
     ctx.require_class("straddling_5bit");
